@@ -5,6 +5,7 @@ import ChythonModel.Model.C03Hydrogens
 Line-protocol driver for C03.  Requests (`<op> <code points…>`):
   `T s`  → `smiles_tokenize(s)`      : `ok <tokens>` | `lib:<Class>` | `crash:<Class>`
   `S s`  → `smiles(s)`               : `ok M <record> # <built>` | `ok R <records> # <kept records> # <built>` | error as above
+  `H k a c s` → `smiles(s, keep_implicit=k, ignore_aromatic_radicals=a, ignore_carbon_radicals=c)`: `ok M <built>` | `ok R <built>` | error
            `<built>` lists per atom `number:Z:isotope:charge:hydrogens:radical` — hydrogens / radical flag as left by the
            hydrogen loop of `create_molecule` (`molHydrogens`) — and the adjacency in insertion order
 The Python side renders the real objects in exactly the same canonical text.
@@ -66,8 +67,8 @@ def showRec (r : MolRec) : String :=
   let stt := sepBy "," (r.starts.map toString)
   s!"atoms={atoms} bonds={bonds} order={order} satoms={sa} sbonds={sb} starts={stt} map={mp}"
 
-def showOut (m : MolOut) : String :=
-  let hs : List (Nat × Option Nat × Bool) := match molHydrogens m with
+def showOutWith (hyd : MolOut → Except Err (List (Nat × Option Nat × Bool))) (m : MolOut) : String :=
+  let hs : List (Nat × Option Nat × Bool) := match hyd m with
     | .ok l => l
     | .error _ => []          -- rendered as `?` below: never equal to what the real code shows
   let atoms := sepBy "," (m.atoms.map fun (n, z, iso, ch, _, _) =>
@@ -78,13 +79,17 @@ def showOut (m : MolOut) : String :=
   let adj := sepBy ";" (m.adj.map fun (n, l) => s!"{n}>" ++ sepBy "," (l.map fun (k, o) => s!"{k}:{o}"))
   s!"{atoms} {adj}"
 
+def showOut (m : MolOut) : String := showOutWith molHydrogens m
+
 def showRxnRec (r : RxnRec) : String :=
   "R[" ++ sepBy " | " (r.reactants.map showRec) ++ "] G[" ++ sepBy " | " (r.reagents.map showRec) ++
   "] P[" ++ sepBy " | " (r.products.map showRec) ++ "]"
 
-def showRxnOut (r : RxnOut) : String :=
-  "R[" ++ sepBy " | " (r.reactants.map showOut) ++ "] G[" ++ sepBy " | " (r.reagents.map showOut) ++
-  "] P[" ++ sepBy " | " (r.products.map showOut) ++ "]"
+def showRxnOutWith (f : MolOut → String) (r : RxnOut) : String :=
+  "R[" ++ sepBy " | " (r.reactants.map f) ++ "] G[" ++ sepBy " | " (r.reagents.map f) ++
+  "] P[" ++ sepBy " | " (r.products.map f) ++ "]"
+
+def showRxnOut (r : RxnOut) : String := showRxnOutWith showOut r
 
 def handle (line : String) : String :=
   match words line with
@@ -102,6 +107,17 @@ def handle (line : String) : String :=
         | .ok (.mol r m) => "ok M " ++ showRec r ++ " # " ++ showOut m
         | .ok (.rxn r k m) => "ok R " ++ showRxnRec r ++ " # " ++ showRxnRec k ++ " # " ++ showRxnOut m
         | .error e => showErrMsg e
+      else if op == "H" then
+        -- `H k a c <code points>`: smiles(s, keep_implicit=k, ignore_aromatic_radicals=a, ignore_carbon_radicals=c), built part only
+        match xs with
+        | k :: a :: c :: rest =>
+          let o : HOpts := { keepImplicit := k != 0, ignoreAromaticRadicals := a != 0, ignoreCarbonRadicals := c != 0 }
+          let f := showOutWith (molHydrogensOpt o)
+          match smiles (rest.map Int.toNat) with
+          | .ok (.mol _ m) => "ok M " ++ f m
+          | .ok (.rxn _ _ m) => "ok R " ++ showRxnOutWith f m
+          | .error e => showErrMsg e
+        | _ => "bad-request"
       else "bad-op"
   | [] => "bad-request"
 
